@@ -146,7 +146,7 @@ def names(tier):
     for k in range(1, n + 1):
         for t in itertools.product(parts, repeat=k):
             out.append('/'.join(t))
-    out += ['INBOX', 'inbox', 'INBOX/..', '../bob', '../bob/cur', '..', '/', '//', '/etc', '/tmp/x', 'a/../../bob',
+    out += ['INBOX', 'inbox', 'INBOX/', 'INBOX//', 'inbox/', 'INBOX/.', 'a/', 'bob/', 'INBOX/..', '../bob', '../bob/cur', '..', '/', '//', '/etc', '/tmp/x', 'a/../../bob',
             '../pymap-etc-passwd', './', './/', 'Existing/..', 'a' * 300]
     return list(dict.fromkeys(out))
 
